@@ -269,6 +269,9 @@ class PageStream(Stream):
             return [("C15/5xx-beyond-budget-reported-as-page", r)]
         if tail == 500 and r["page"] in ("empty",):
             return [("C15/server-error-reported-as-no-candidates", r)]
+        if n5 <= case["retries"] and 400 <= tail < 500 and tail != 404 and r["page"] in ("ok", "empty"):
+            # a refused / throttled request (401, 403, 429 ...) is a failed transfer, not "this index has no such project"
+            return [("C15/client-error-reported-as-no-candidates", r)]
         return []
 
 
